@@ -96,7 +96,7 @@ def execute(o, share, ro, cbmode, share_copy=False):
         prot = []
         if ro != 0:
             for i, v in enumerate(vals):
-                if o.kinds[i] in ("A", "G") and (ro == -1 or ro == i + 1):
+                if o.kinds[i] in ("A", "G") and (ro >> i) & 1:
                     for a in _arrays_of(v):
                         if a.flags.writeable:
                             a.flags.writeable = False
@@ -182,7 +182,8 @@ def run(tier: str) -> int:
     wd = tlc.scratch(f"{PROP}-{tier}")
     ops = api_table.load()
     _write_tables(wd, ops)
-    res = tlc.run_tlc("CallFrame", "MC_CallFrame.cfg", wd, workers=4, coverage=True).require_ok("MC_CallFrame")
+    cfg = "MC_CallFrame_full.cfg" if tier == "thorough" else "MC_CallFrame.cfg"
+    res = tlc.run_tlc("CallFrame", cfg, wd, workers=4, coverage=True).require_ok("MC_CallFrame")
     rep.tlc(res, "MC_CallFrame")
     if res.status == "violation":
         rep.violation("model:" + ",".join(res.violated), f"CallFrame model violates {res.violated}", tlc.last_state(res))
@@ -199,9 +200,9 @@ def run(tier: str) -> int:
     sel = []
     for k, share, ro, cbm in progs:
         o = ops[k - 1]
-        if o.heavy and (share != (0, 0) or ro not in (0, -1)):
-            if tier == "quick":
-                continue
+        allmask = sum(1 << i for i, kd in enumerate(o.kinds) if kd in ("A", "G"))
+        if o.heavy and (share != (0, 0) or ro not in (0, allmask)):
+            continue     # heavy operations (Poisson solvers, molecular interpolation): no sharing, nothing / everything protected
         sel.append((k, share, ro, cbm))
     # programs are executed in forked children (one task per operation) with an address-space limit
     # and a per-program alarm: a library that starts to diverge on an aliased input must not take
